@@ -48,6 +48,8 @@ type Explorer struct {
 	Summaries map[string]*ssa.Function
 	ExactRechecks int
 	UnknownSites  map[string]int
+	QuerySites    map[string]int
+	SimpDecided   int
 }
 
 type PathCtx struct {
@@ -62,6 +64,7 @@ type PathCtx struct {
 	vars      []*Term
 	varSeq    map[string]int
 	nAsserts  int
+	facts     facts
 	sched     []int64 // scheduling choices (explored-mode threads), for native replay
 	curFrame  *frame
 	hashApps  []hashApp
@@ -79,11 +82,30 @@ func (c *PathCtx) sync() {
 	}
 }
 
-func (c *PathCtx) add(t *Term) { c.pc = append(c.pc, t) }
+func (c *PathCtx) add(t *Term) {
+	c.pc = append(c.pc, t)
+	if !noSimp {
+		c.facts.learn(t)
+	}
+}
+
+var noSimp = false
+
+func (c *PathCtx) simp(t *Term) *Term {
+	if noSimp || c.facts.n == 0 || t.IsConst() {
+		return t
+	}
+	return c.facts.simp(t, map[*Term]*Term{})
+}
 
 func (c *PathCtx) Branch(cond *Term) bool {
 	if cond.IsConst() {
 		return cond.IsTrue()
+	}
+	// deterministic given the path condition, so it is applied identically when a prefix is replayed
+	if sc := c.simp(cond); sc.IsConst() {
+		c.ex.SimpDecided++
+		return sc.IsTrue()
 	}
 	if c.pos < len(c.prefix) {
 		d := c.prefix[c.pos]
@@ -99,6 +121,10 @@ func (c *PathCtx) Branch(cond *Term) bool {
 	c.pos++
 	c.sync()
 	s := c.ex.solver
+	if c.ex.QuerySites != nil && c.curFrame != nil {
+		pos := c.curFrame.fn.Prog.Fset.Position(c.curFrame.cur.Pos())
+		c.ex.QuerySites[fmt.Sprintf("%s @%s:%d", c.curFrame.fn.Name(), pos.Filename[strings.LastIndex(pos.Filename, "/")+1:], pos.Line)]++
+	}
 	rt := s.Check(cond)
 	s.Pop()
 	rf := "sat"
